@@ -218,7 +218,7 @@ impl Store {
 
     /// Returns the path to use for the trust anchor at the given URI.
     fn ta_path(&self, uri: &TalUri) -> PathBuf {
-        match *uri {
+        let res = match *uri {
             TalUri::Rsync(ref uri) => {
                 self.path.join(
                     uri.unique_path(Self::RSYNC_TA_PATH, ".cer")
@@ -229,7 +229,12 @@ impl Store {
                     uri.unique_path(Self::HTTPS_TA_PATH, ".cer")
                 )
             }
-        }
+        };
+        #[cfg(feature = "verif-hooks")]
+        crate::verif::point("path.map", || {
+            format!("store-ta\t{}\t{}", uri, res.display())
+        });
+        res
     }
 
     /// Returns the path where the RRDP repositories are stored.
@@ -239,7 +244,12 @@ impl Store {
 
     /// Returns the path for the RRDP repository with the given rpkiNotify URI.
     fn rrdp_repository_path(&self, uri: &uri::Https) -> PathBuf {
-        self.path.join(uri.unique_path(Self::RRDP_BASE, ""))
+        let res = self.path.join(uri.unique_path(Self::RRDP_BASE, ""));
+        #[cfg(feature = "verif-hooks")]
+        crate::verif::point("path.map", || {
+            format!("store-rrdp-repository\t{}\t{}", uri, res.display())
+        });
+        res
     }
 
     /// Returns the path where the combined rsync repository is stored.
@@ -388,6 +398,13 @@ impl Store {
                 uri.path()
             )
         );
+        #[cfg(feature = "verif-hooks")]
+        crate::verif::point("path.map", || {
+            format!(
+                "dump-store-object\t{} {}\t{}",
+                dir.display(), uri, path.display()
+            )
+        });
         if let Some(dir) = path.parent() {
             fatal::create_dir_all(dir)?;
         }
@@ -739,14 +756,25 @@ impl Repository {
 
     /// Returns the path for a publication point with the given manifest URI.
     fn point_path(&self, manifest_uri: &uri::Rsync) -> PathBuf {
-        self.path.join(
+        let res = self.path.join(
             format!(
                 "rsync/{}/{}/{}",
                 manifest_uri.canonical_authority(),
                 manifest_uri.module_name(),
                 manifest_uri.path(),
             )
-        )
+        );
+        #[cfg(feature = "verif-hooks")]
+        crate::verif::point("path.map", || {
+            format!(
+                "store-point\t{} {}\t{}",
+                self.rpki_notify.as_ref().map(|uri| {
+                    uri.as_str()
+                }).unwrap_or("rsync"),
+                manifest_uri, res.display()
+            )
+        });
+        res
     }
 }
 
